@@ -198,7 +198,9 @@ pub fn build<K: GK>(g: &G, env: &Env, cx: &Ctx) -> K {
             for v in vars {
                 // names of several shapes, reused across scopes: identity must never depend on them
                 const NAMES: [&str; 7] = ["f", "_t", "x1", "__h", "Tmp", "q", "_0"];
-                let lv: PTerm = LTerm::var(NAMES[*v as usize % NAMES.len()]);
+                // every seventh variable is an anonymous one, as the macros create for `_`
+                let name = NAMES[(*v as usize * 5 + 3) % NAMES.len()];
+                let lv: PTerm = if name == "_0" { LTerm::any() } else { LTerm::var(name) };
                 env_set(&mut env2, *v, lv.clone());
                 lvars.push(lv);
             }
